@@ -11,6 +11,7 @@ import glob
 import hashlib
 import json
 import os
+import re
 import shutil
 import subprocess
 import sys
@@ -278,8 +279,18 @@ def env_for_run():
     return e
 
 
+def arg_of(path):
+    """Size knob a saved case was generated with (part of its meaning): encoded in the file name
+    as .arg<N>. ; absent = the quick tier's value, which is also the decoders' default."""
+    m = re.search(r"\.arg(\d+)\.", os.path.basename(path))
+    return int(m.group(1)) if m else None
+
+
 def replay_once(binary, path, known=(), timeout=120, case_timeout=20):
     cmd = [binary, "--replay", path, "--case-timeout", str(case_timeout)]
+    a = arg_of(path)
+    if a is not None:
+        cmd += ["--size-arg", str(a)]
     if known:
         cmd += ["--known", ",".join(known)]
     try:
@@ -293,7 +304,7 @@ def crash_signature(rc, stderr):
     """A short, stable summary of a sanitizer / assertion abort."""
     for line in stderr.splitlines():
         if line.startswith("POOL-STUCK"):
-            return "non-termination: worker pool provably stuck (lost wake-up)"
+            return "non-termination: worker pool provably stuck (%s)" % ("lost wake-up" if "lost wake-up" in line else "pause() never completes")
     if rc == -999 or rc == 88:
         return "non-termination (case watchdog)"
     for line in stderr.splitlines():
@@ -314,10 +325,10 @@ def is_crash(rc):
     return rc not in (0, 1, 2, 89)
 
 
-def shrink_crash(binary, data, sig, budget_s=60, known=()):
+def shrink_crash(binary, data, sig, budget_s=60, known=(), arg=None):
     """Out-of-process delta debugging for inputs that kill the process."""
     t_end = time.time() + budget_s
-    tmp = os.path.join(BUILD_ROOT, "shrink.%d.bin" % os.getpid())
+    tmp = os.path.join(BUILD_ROOT, "shrink.%d%s.bin" % (os.getpid(), (".arg%d" % arg) if arg is not None else ""))
 
     hang = sig.startswith("non-termination")
 
@@ -508,11 +519,13 @@ def confirm_violation(binary, path, known, times=3):
     return fails == times, last
 
 
-def save_replay(pid, data, tag):
+def save_replay(pid, data, tag, arg=None):
     d = os.path.join(VERIF, "replays")
     os.makedirs(d, exist_ok=True)
     h = hashlib.sha256(data).hexdigest()[:12]
-    p = os.path.join(d, "%s-%s-%s.bin" % (pid, tag, h))
+    quick_arg = conf(pid)["quick"].get("arg", 0)
+    suffix = "" if arg is None or arg == quick_arg else ".arg%d" % arg
+    p = os.path.join(d, "%s-%s-%s%s.bin" % (pid, tag, h, suffix))
     with open(p, "wb") as f:
         f.write(data)
     return p
@@ -596,7 +609,7 @@ def check(pid, tier):
     reported = set()
     for v in agg["violations"][:3]:
         data = bytes.fromhex(v["bytes_hex"])
-        p = save_replay(pid, data, "viol")
+        p = save_replay(pid, data, "viol", tcfg.get("arg", 0))
         if p in reported:
             continue
         reported.add(p)
@@ -618,7 +631,7 @@ def check(pid, tier):
             continue
         seen_sig.add(sig)
         b = r["binary"]
-        p0 = save_replay(pid, data, "crash-raw")
+        p0 = save_replay(pid, data, "crash-raw", tcfg.get("arg", 0))
         rc, so, se = replay_once(b, p0, known)
         if not is_crash(rc) and r["rc"] == 88 and "POOL-STUCK" not in r["stderr"]:
             # the per-case stopwatch expired but the same input returns normally in a fresh
@@ -632,8 +645,8 @@ def check(pid, tier):
             violations.append((p0, "process died: %s (the last input alone does not reproduce it; output above)" % sig))
             continue
         sig = crash_signature(rc, se)
-        small = shrink_crash(b, data, sig, budget_s=45 if tier == "quick" else 120, known=known)
-        p = save_replay(pid, small, "crash")
+        small = shrink_crash(b, data, sig, budget_s=45 if tier == "quick" else 120, known=known, arg=arg_of(p0))
+        p = save_replay(pid, small, "crash", tcfg.get("arg", 0))
         if p0 != p and os.path.exists(p0):
             os.remove(p0)
         ok, last = confirm_violation(b, p, known)
@@ -654,7 +667,7 @@ def check(pid, tier):
         fuzz_execs += fr["execs"]
         for a in fr["artifacts"][:2]:
             data = open(a, "rb").read()
-            p = save_replay(pid, data, "fuzz")
+            p = save_replay(pid, data, "fuzz", tcfg.get("arg", 0))
             ok, last = confirm_violation(binary, p, known)
             if ok:
                 rc2, so2, se2 = replay_once(binary, p, known)
